@@ -86,47 +86,54 @@ Lemma Forall_map_mul10 l : Forall (fun w => 0 <= w) l -> Forall (fun m => 0 <= m
 Proof. intros H. apply Forall_forall. intros m Hm. apply in_map_iff in Hm as [w [<- Hw]].
   rewrite Forall_forall in H. specialize (H w Hw). lia. Qed.
 
-(* ---- main facts about normalise *)
-Lemma normalise_length given : length (normalise given) = length given.
-Proof. unfold normalise. destruct (accepted given); [reflexivity|]. rewrite map_length, fallback_length. reflexivity. Qed.
+Lemma Forall_map_mulc c l : 0 <= c -> Forall (fun w => 0 <= w) l -> Forall (fun m => 0 <= m) (map (Z.mul c) l).
+Proof. intros Hc H. apply Forall_forall. intros m Hm. apply in_map_iff in Hm as [w [<- Hw]].
+  rewrite Forall_forall in H. specialize (H w Hw). nia. Qed.
 
-Lemma normalise_nonneg given : (1 <= length given)%nat -> Forall (fun m => 0 <= m) (normalise given).
+(* ---- main facts about normalise (any scale c >= 0, any given weights: no hypothesis on decimals) *)
+Lemma normalise_length c given : length (normalise c given) = length given.
+Proof. unfold normalise. destruct (accepted c given); [reflexivity|]. rewrite map_length, fallback_length. reflexivity. Qed.
+
+Lemma normalise_nonneg c given : 0 <= c -> (1 <= length given)%nat -> Forall (fun m => 0 <= m) (normalise c given).
 Proof.
-  intros Hn. unfold normalise. destruct (accepted given) eqn:E.
+  intros Hc Hn. unfold normalise. destruct (accepted c given) eqn:E.
   - unfold accepted in E. apply andb_true_iff in E as [_ E]. apply forallb_nonneg; assumption.
-  - apply Forall_map_mul10, fallback_nonneg; assumption.
+  - apply Forall_map_mulc; [assumption|]. apply fallback_nonneg; assumption.
 Qed.
 
-Lemma normalise_sum given :
-  (1 <= length given)%nat -> three_decimals given -> sumZ (normalise given) = 10000.
+Lemma normalise_sum c given : (1 <= length given)%nat -> sumZ (normalise c given) = 1000 * c.
 Proof.
-  intros Hn H3. unfold normalise. destruct (accepted given) eqn:E.
-  - unfold accepted in E. apply andb_true_iff in E as [E _].
-    pose proof (sum_trunc_three_decimals given H3). lia.
-  - rewrite sumZ_map_mul, fallback_sum by assumption. reflexivity.
+  intros Hn. unfold normalise. destruct (accepted c given) eqn:E.
+  - unfold accepted in E. apply andb_true_iff in E as [E _]. lia.
+  - rewrite sumZ_map_mul, fallback_sum by assumption. lia.
 Qed.
 
-Lemma normalise_keeps given :
-  three_decimals given -> Forall (fun m => 0 <= m) given -> sumZ given = 10000 -> normalise given = given.
+Lemma normalise_keeps c given :
+  Forall (fun m => 0 <= m) given -> sumZ given = 1000 * c -> normalise c given = given.
 Proof.
-  intros H3 Hpos Hs. unfold normalise, accepted.
-  pose proof (sum_trunc_three_decimals given H3).
-  replace (sumZ (map trunc1000 given) =? 1000) with true by lia.
+  intros Hpos Hs. unfold normalise, accepted.
+  replace (sumZ given =? 1000 * c) with true by lia.
   apply forallb_nonneg in Hpos. rewrite Hpos. reflexivity.
 Qed.
 
-Lemma normalise_default given :
-  (1 <= length given)%nat -> accepted given = false ->
-  normalise given = map (Z.mul 10) (repeat (fb (Z.of_nat (length given))) (length given - 1)
-                                     ++ [fb_last (Z.of_nat (length given))]).
-Proof. intros Hn E. unfold normalise. rewrite E, fallback_shape by assumption. reflexivity. Qed.
-
-Lemma monitor_accepts_normalised given :
-  (1 <= length given)%nat -> monitor_accepts (normalise given) = true.
+(* ... and ONLY then: weights that are kept are non-negative and sum to one *)
+Lemma normalise_changes c given :
+  (1 <= length given)%nat -> ~ (Forall (fun m => 0 <= m) given /\ sumZ given = 1000 * c) ->
+  normalise c given = map (Z.mul c) (repeat (fb (Z.of_nat (length given))) (length given - 1)
+                                       ++ [fb_last (Z.of_nat (length given))]).
 Proof.
-  intros Hn. unfold monitor_accepts, normalise. destruct (accepted given) eqn:E.
-  - unfold accepted in E. apply andb_true_iff in E as [E _]. exact E.
-  - rewrite map_trunc_mul10, fallback_sum by assumption. reflexivity.
+  intros Hn H. unfold normalise. destruct (accepted c given) eqn:E.
+  - exfalso. apply H. unfold accepted in E. apply andb_true_iff in E as [E1 E2].
+    split; [apply forallb_nonneg; assumption|lia].
+  - rewrite fallback_shape by assumption. reflexivity.
+Qed.
+
+Lemma monitor_accepts_normalised c given :
+  0 <= c -> (1 <= length given)%nat -> monitor_accepts c (normalise c given) = true.
+Proof.
+  intros Hc Hn. unfold monitor_accepts, accepted.
+  rewrite (normalise_sum c given Hn), Z.eqb_refl.
+  apply forallb_nonneg, normalise_nonneg; assumption.
 Qed.
 
 (* ---- progress *)
